@@ -208,7 +208,7 @@ func GenEdit(t *rapid.T, old *Repo, o RepoGenOpts) (*Repo, string) {
 	for attempt := 0; attempt < 8; attempt++ {
 		op := rapid.SampledFrom([]string{
 			"edit-file", "edit-file", "edit-file", "edit-comment", "edit-same", "add-file", "remove-file", "rename-file",
-			"change-cmd", "salt", "rename-out", "rename-out", "rename-out", "add-src", "remove-src", "add-target", "remove-target", "text-content", "swap-content",
+			"change-cmd", "salt", "rename-out", "rename-out", "rename-out", "add-src", "remove-src", "add-target", "remove-target", "text-content", "swap-content", "toggle-exec",
 		}).Draw(t, "op")
 		if o.Cutoff && rapid.IntRange(0, 3).Draw(t, "cutoff") == 0 {
 			for i := range r.Files {
@@ -334,6 +334,13 @@ func GenEdit(t *rapid.T, old *Repo, o RepoGenOpts) (*Repo, string) {
 			setOuts(tg)
 			fixAllFilegroups(r)
 			return r, fmt.Sprintf("change-cmd %s -> %s", tg.Label(), tg.Cmd)
+		case "toggle-exec":
+			tg := pickTarget(t, r, "genrule")
+			if tg == nil || tg.Cmd == "multi" || tg.Cmd == "dirk" || tg.Cmd == "dirn" {
+				continue
+			}
+			tg.ExecOut = !tg.ExecOut
+			return r, fmt.Sprintf("toggle-exec %s -> %v", tg.Label(), tg.ExecOut)
 		case "salt":
 			tg := pickTarget(t, r, "genrule")
 			if tg == nil {
